@@ -32,6 +32,10 @@ K19 = [
      [("${x} * ${y}", "${y} * ${x}"), ("${x} - ${y}", "${x} - ${y}"), ("${x} ** ${y}", "pow(${x}, ${y})"), ("${x} + ${y}", "${y} + ${x}")]),
     (Skeleton("r03_calls_attrs", {"main.py": "{0} = [3, 1]\n{1} = [2]\nprint(sorted({0} + {1}), len({0}), max(len({0}), len({1})))\n"}),
      [("len(${s})", "len(${s})"), ("max(${p}, ${q})", "max(${q}, ${p})"), ("sorted(${s})", "list(sorted(${s}))")]),
+    # statement patterns (one and two statements) with instances in every kind of statement list:
+    # function body, if body, except handler, try-else and finally
+    (Skeleton("r05_statement_patterns", {"main.py": "def fun({0}):\n    {1} = 0\n    try:\n        {2} = {0} + 1\n    except ValueError:\n        {1} = 0\n    else:\n        {2} = 0\n        print({2})\n    finally:\n        {1} = 0\n        print({1})\n    if {0}:\n        {2} = 0\n    return {1}\nprint(fun(1))\n"}),
+     [("${x} = 0", "${x} = 0"), ("${x} = 0\nprint(${x})", "${x} = 0\nprint(${x})"), ("return ${v}", "return ${v}"), ("${x} = ${y} + 1", "${x} = 1 + ${y}")]),
     (Skeleton("r04_multiline_operand", {"main.py": "{0} = 1\n{1} = 2\n{2} = ({0} +\n     {1}) * ({1}\n     - {0})\nprint({2})\n"}),
      [("${x} * ${y}", "${y} * ${x}"), ("${x} + ${y}", "${x} + ${y}")]),
 ]
@@ -124,7 +128,7 @@ def make_find(p):
             except Exception as e:
                 return h.fail("internal_error", "get_matches raised %s: %s" % (type(e).__name__, e), model=m, skeleton=s.name, src=files["main.py"], pattern=pattern, start=a, end=b)
         end_of_path(s)
-        exp = [(x, y) for x, y, env in c19_oracle.matches(cf["main.py"], pattern, a, b)]
+        exp = c19_oracle.reference_regions(cf["main.py"], pattern, a, b)
         if sorted(got) != exp:
             return h.fail("matches_differ", "rope %s reference %s" % (sorted(got), exp), model=m, skeleton=s.name, src=files["main.py"], pattern=pattern, start=a, end=b, partition=partition_sig(pat))
         return h.sample(skeleton=s.name, src=files["main.py"], pattern=pattern, start=a, end=b)
